@@ -63,7 +63,7 @@ import (
 
 // ------------------------------------------------------------------ supervisor
 
-var allStructures = []string{"alerts", "window", "metrics", "optracker", "stateless", "informers", "crdt", "trackerlife", "crdtlife", "clusterlife", "clusterearly"}
+var allStructures = []string{"alerts", "window", "metrics", "optracker", "stateless", "informers", "crdt", "trackerlife", "crdtlife", "clusterlife", "clusterearly", "watch"}
 
 // clusterearly (Cluster.Shutdown racing ready()) deadlocked before /repo 87856f0 (finding K18b, fixed): since the fix it runs in
 // every tier — it is the run-time oracle that catches a revert of that commit (stalled=1, goroutine dump in the report).
@@ -1276,6 +1276,8 @@ func child(name string, secs int) {
 		soakClusterLife(secs, "clusterlife", true)
 	case "clusterearly":
 		soakClusterLife(secs, "clusterearly", false)
+	case "watch":
+		soakWatch(secs)
 	default:
 		fmt.Fprintln(os.Stderr, "unknown structure", name)
 		os.Exit(4)
